@@ -522,3 +522,37 @@ Proof.
   exists [(OTokenize, tin0 [83; 45; 45; 99]%N 0 0)], (OTokenizeCtx, tin0 [83]%N 1 0).
   vm_compute. discriminate.
 Qed.
+
+(* ------------------------------------------------------------------------------------------- *)
+(* struct fields the model has no column for (recogniser hardening): the table extended by the regenerated columns of
+   such fields satisfies the hypothesis of the generic theorem as soon as the model's table does and Inst_C08's
+   [extras_ok] holds — so a field that is dead on entry of every method, or well behaved, needs no model change *)
+Section Extend.
+  Variables field op : Type.
+  Variable T : footprint field op.
+  Variable fname : field -> String.string.
+  Variable methods : op -> list String.string.
+  Variable gen_fields : list String.string.
+  Variable gen : list fxrow.
+  Let X := ext_table T fname methods gen_fields gen.
+
+  Lemma ext_live_inl : forall f, live X (inl f) = live T f.
+  Proof. intro f. reflexivity. Qed.
+  Lemma ext_configurable_inl : forall f, configurable X (inl f) = configurable T f.
+  Proof. intro f. reflexivity. Qed.
+  Lemma ext_wb_inl : forall f, wb X (inl f) = wb T f.
+  Proof. intro f. reflexivity. Qed.
+
+  Theorem ext_table_ok :
+    table_ok T = true -> extras_ok T fname methods gen_fields gen = true -> table_ok X = true.
+  Proof.
+    intros HT HE. unfold table_ok in *. rewrite forallb_forall in HT. rewrite forallb_forall.
+    intros x Hx. unfold X, ext_table in Hx. cbn [fp_fields] in Hx. apply in_app_or in Hx. destruct Hx as [Hx | Hx].
+    - apply in_map_iff in Hx. destruct Hx as [f [<- Hf]]. rewrite ext_live_inl, ext_wb_inl. exact (HT f Hf).
+    - apply in_map_iff in Hx. destruct Hx as [e [<- He]]. unfold extras_ok in HE. rewrite forallb_forall in HE. exact (HE e He).
+  Qed.
+
+  (* the extension changes nothing about the fields the model knows: an operation's footprint on them is the model's *)
+  Lemma ext_conservative : forall o f, fp_reads X o (inl f) = fp_reads T o f /\ fp_eff X o (inl f) = fp_eff T o f /\ fp_kind X o = fp_kind T o.
+  Proof. intros. repeat split. Qed.
+End Extend.
